@@ -379,6 +379,8 @@ def install(reg):
     for q, c in sorted(reg.contracts.items()):
         if not ({"C13", "C04"} & set(c.props)) or not c.verify:
             continue
+        if q.endswith("_operator.attribute"):
+            continue  # install_attribute()
         if q.startswith(E.EX + "_operator."):
             add_wrapper(q)
         elif q.endswith("Rational.__init__"):
@@ -559,3 +561,28 @@ def _build_chain(d):
 
 def install_chain():
     NATIVE.add(E.PTP + "_visit_binary_operator_chain", _gen_chain, _build_chain)
+
+
+# ---- the attribute operator
+_ATTR_ALL = ["min", "max", "count", "_bit_length_", "_extent_", "K", "foo", ""]
+
+
+def _gen_attribute(rng, i):
+    vals = EXOTIC_ALL + [{"k": "comp", "t": t} for t in ("service", "struct", "delimited")]
+    if i < len(vals) * len(_ATTR_ALL):
+        v, n = vals[i % len(vals)], _ATTR_ALL[i // len(vals)]
+    else:
+        v, n = rng.choice(vals + [_gen_any(rng)]), rng.choice(_ATTR_ALL)
+    return {"value": v, "name": n, "as_string": i % 2 == 0}
+
+
+def _build_attribute(d):
+    from pydsdl import _expression as X
+
+    v = _mk_composite(d["value"]["t"]) if d["value"]["k"] == "comp" else _mk(d["value"])
+    name = X.String(d["name"]) if d["as_string"] else d["name"]
+    return (lambda: X.attribute(v, name)), {"value": v, "name": name}
+
+
+def install_attribute():
+    NATIVE.add(E.OPMOD + "attribute", _gen_attribute, _build_attribute, outside_pre_only_raises=ONLY_INVALID_DEFINITION)
